@@ -273,7 +273,8 @@ def classify_native(flavor, d, vm_outcome=None, main="main.nano"):
         why = engines.classify_nanoc_failure(r)
         return Outcome("rejected", "nanoc", why, titles, both), r, None
     if not built:
-        if "C compilation failed" in both:
+        if "C compilation failed" in both or ("Failed to compile module" in both and re.search(r"\berror: ", both)):
+            # (an imported module is compiled to an object of its own; its C errors are cc failures like the main file's)
             return Outcome("stuck", "cc", cc_class(r), titles, both), r, None
         if "Transpilation failed" in both:
             m = re.search(r"^(?:Error|error)[: ](.*)$", r.errtext(), re.M)
